@@ -290,6 +290,10 @@ class ConvolvedFluxes(object):
             The apertures to interpolate to
         """
 
+        # Work in double precision: resetting values in an integer or
+        # single-precision array would truncate or round the maximum
+        apertures = u.Quantity(apertures, dtype=float)
+
         # Initalize new ConvolvedFluxes object to return
         c = ConvolvedFluxes()
 
